@@ -29,6 +29,8 @@ pub const PALETTE: &[&str] = &[
     // schemes that contain an autolink trigger character after their first letter (relaxed autolinks rewind over text nodes)
     "the news://n.o/p x", "a twitter://x.y", "rawr://r.s",
     // upper-case spellings of what the extensions react to in lower case
+    // labels of undefined footnote references that hold more than text; code blocks with white-space-only lines
+    "[^see the\nnote] for details", "[^about `foo`] y", "[^a ![i](u)] z", "```\nfoo\n      \nbar\n```\n", "~~~\n \n\t\n    \nx\n~~~\n", "    a\n     \n    b\n",
     "ORDER AT WWW.EXAMPLE.COM/SHOP NOW", "HTTP://EXAMPLE.COM/X", "MAILTO:A@B.C", "[!note]", "<SCRIPT>", "&AMP;", "&COPY;",
 ];
 
